@@ -37,3 +37,84 @@ Definition lstore_eqb (x y : lstore) : bool :=
   tab_eqb pillar_eqb (l_pillars x) (l_pillars y) && tab_eqb Z.eqb (l_dep x) (l_dep y) && tab_eqb bytes_eqb (l_producing x) (l_producing y) &&
   tab_eqb bytes_eqb (l_deleg x) (l_deleg y) && tab_eqb Z.eqb (l_legacy x) (l_legacy y).
 Definition emb_pillar_eqb := emb_out_eqb lstore_eqb.
+
+(* ---------------------------------------------------------------- liquidity stakes and bridge unwrap requests *)
+From ZV Require Import Liquidity Bridge.
+
+(* descendants compared WITH their call data *)
+Definition dprojd (d : dsend) : bytes * Z * bytes * bytes := (d_to d, d_amount d, d_zts d, d_data d).
+Definition dprojd_eqb (a b : bytes * Z * bytes * bytes) : bool :=
+  let '(t1, a1, z1, x1) := a in let '(t2, a2, z2, x2) := b in bytes_eqb t1 t2 && (a1 =? a2) && bytes_eqb z1 z2 && bytes_eqb x1 x2.
+Definition emb_outd (S : Type) := (Z * list (bytes * Z * bytes * bytes) * S * bals)%type.
+Definition run_embd {S} (dc : dsend -> option Z) (m : method S) (st : S) (b : bals) (s : send) : emb_outd S :=
+  let proj a' := map (fun kv => (fst kv, bal_get (a_bal a') (fst kv))) b in
+  match generate_receive S dc (fun _ => LFound m) {| a_bal := b; a_store := st; a_cursor := 0 |} s with
+  | RApplied a' ds => (0, map dprojd ds, a_store a', proj a')
+  | RRefunded a' ds c => (c, map dprojd ds, a_store a', proj a')
+  | RInternal _ => (-1, [], st, b)
+  | RPanic => (-2, [], st, b)
+  end.
+Definition emb_outd_eqb {S} (seqb : S -> S -> bool) (a b : emb_outd S) : bool :=
+  let '(c1, d1, s1, b1) := a in let '(c2, d2, s2, b2) := b in
+  (c1 =? c2) && list_eqb dprojd_eqb d1 d2 && seqb s1 s2 && bals_eqb b1 b2.
+
+(* observed values in the last input slot: (1, token standard, its string); (2, spork address, []);
+   (3, [], []) = the accelerator spork is enforced; (100 + c, [], []) = verdict c of the TSS signature check (0 = valid) *)
+Definition zstr_of (tbl : list (Z * bytes * bytes)) (z : bytes) : bytes :=
+  match find (fun '(k, zb, _) => (k =? 1) && bytes_eqb zb z) tbl with Some (_, _, str) => str | None => [] end.
+Definition spork_of (tbl : list (Z * bytes * bytes)) : bytes :=
+  match find (fun '(k, _, _) => k =? 2) tbl with Some (_, a, _) => a | None => [] end.
+Definition accel_of (tbl : list (Z * bytes * bytes)) : bool := existsb (fun '(k, _, _) => k =? 3) tbl.
+Definition sigcheck_of (tbl : list (Z * bytes * bytes)) : Z :=
+  match find (fun '(k, _, _) => 100 <=? k) tbl with Some (k, _, _) => k - 100 | None => 99 end.
+
+(* applySend's check of a descendant of the liquidity contract: Donate to a contract that has the method needs a positive
+   amount, Burn at the token contract too; a user destination always passes *)
+Definition dest_check_liq (donate : list bytes) (d : dsend) : option Z :=
+  if is_embedded (d_to d) then
+    if bytes_eqb (d_to d) AddrTokenContract && bytes_eqb (d_data d) Sel_token_Burn then (if 0 <? d_amount d then None else Some E_token_or_amount)
+    else if existsb (bytes_eqb (d_to d)) donate && bytes_eqb (d_data d) Sel_common_Donate then (if d_amount d =? 0 then Some E_token_or_amount else None)
+    else Some 101
+  else None.
+Definition emb_liquidity_run (i : emb_in qstore) : emb_outd qstore :=
+  let '(id, e, self, st, b, s, donate, obs) := i in
+  run_embd (dest_check_liq donate)
+           (if id =? 1 then liquidity_stake_receive (zstr_of obs) e else if id =? 2 then cancel_liquidity_receive e
+            else if id =? 3 then unlock_liquidity_receive e else if id =? 4 then set_halted_receive
+            else if id =? 5 then fund_receive (spork_of obs) (accel_of obs) else burn_znn_receive (spork_of obs) (accel_of obs))
+           st b s.
+Definition lstake_eqb (x y : lstake) : bool :=
+  (ls_amount x =? ls_amount y) && bytes_eqb (ls_zts x) (ls_zts y) && (ls_weighted x =? ls_weighted y) && (ls_start x =? ls_start y) &&
+  (ls_revoke x =? ls_revoke y) && (ls_exp x =? ls_exp y).
+Definition ltuple_eqb (x y : ltuple) : bool :=
+  bytes_eqb (lt_zts x) (lt_zts y) && (lt_znn_pct x =? lt_znn_pct y) && (lt_qsr_pct x =? lt_qsr_pct y) && (lt_min x =? lt_min y).
+Definition qstore_eqb (x y : qstore) : bool :=
+  bytes_eqb (lq_admin x) (lq_admin y) && Bool.eqb (lq_halted x) (lq_halted y) && (lq_znn_reward x =? lq_znn_reward y) &&
+  (lq_qsr_reward x =? lq_qsr_reward y) && list_eqb ltuple_eqb (lq_tuples x) (lq_tuples y) && tab_eqb lstake_eqb (lq_entries x) (lq_entries y).
+Definition emb_liquidity_eqb := emb_outd_eqb qstore_eqb.
+
+(* a descendant of the bridge: the Mint call to the token contract validates (amount in the data > 0, block amount 0); a
+   transfer to an embedded address has no method to receive it *)
+Definition dest_check_bridge (d : dsend) : option Z :=
+  if is_embedded (d_to d) then
+    if bytes_eqb (d_to d) AddrTokenContract && bytes_eqb (firstn 4 (d_data d)) Sel_token_Mint && (d_amount d =? 0) then None else Some 101
+  else None.
+Definition emb_bridge_run (i : emb_in bstore) : emb_outd bstore :=
+  let '(id, e, self, st, b, s, donate, obs) := i in
+  run_embd dest_check_bridge
+           (if id =? 1 then unwrap_receive (zstr_of obs) (fun _ => sigcheck_of obs) e else if id =? 2 then redeem_receive e else revoke_receive)
+           st b s.
+Definition unwrap_eqb (x y : unwrap) : bool :=
+  (u_reg x =? u_reg y) && (u_class x =? u_class y) && (u_chain x =? u_chain y) && bytes_eqb (u_to x) (u_to y) &&
+  bytes_eqb (u_tokaddr x) (u_tokaddr y) && bytes_eqb (u_zts x) (u_zts y) && (u_amount x =? u_amount y) && bytes_eqb (u_sig x) (u_sig y) &&
+  (u_redeemed x =? u_redeemed y) && (u_revoked x =? u_revoked y).
+Definition tpair_eqb (x y : tpair) : bool :=
+  bytes_eqb (tp_zts x) (tp_zts y) && bytes_eqb (tp_addr x) (tp_addr y) && Bool.eqb (tp_bridgeable x) (tp_bridgeable y) &&
+  Bool.eqb (tp_redeemable x) (tp_redeemable y) && Bool.eqb (tp_owned x) (tp_owned y) && (tp_min x =? tp_min y) && (tp_fee x =? tp_fee y) &&
+  (tp_delay x =? tp_delay y).
+Definition network_eqb (x y : network) : bool := bytes_eqb (nw_name x) (nw_name y) && list_eqb tpair_eqb (nw_pairs x) (nw_pairs y).
+Definition bstore_eqb (x y : bstore) : bool :=
+  bytes_eqb (b_admin x) (b_admin y) && Bool.eqb (b_tss_set x) (b_tss_set y) && Bool.eqb (b_halted x) (b_halted y) &&
+  (b_unhalted_at x =? b_unhalted_at y) && (b_unhalt_dur x =? b_unhalt_dur y) && (b_guardians x =? b_guardians y) &&
+  Bool.eqb (b_orch_ok x) (b_orch_ok y) && tab_eqb network_eqb (b_networks x) (b_networks y) && tab_eqb unwrap_eqb (b_unwraps x) (b_unwraps y).
+Definition emb_bridge_eqb := emb_outd_eqb bstore_eqb.
